@@ -129,6 +129,24 @@ def eq_hash_ord(ctx, prog, tyname):
                     fed.add(n)
     ctx.ob(R, "%s Hash: feeds only fields that PartialEq compares (and all of them)" % tyname, fed <= seen_self and fed == allf and not foreign and n_w > 0,
            "fed: %s over %d write calls" % (sorted(fed), n_w), fh.loc())
+    # ---- hash: the byte stream is self-delimiting: a field is fed whole (fixed extent), or as a prefix `field[0..len]` whose
+    # length `len` (a field of self) was fed before it.  Otherwise two unequal objects feed the same bytes to every hasher.
+    bad = []
+    fed_scalars = []
+    for i, t in sorted(fh.calls()):
+        c = callee_of(t)
+        if re.search(r"Hasher::write_\w+$", c) and len(t["args"]) == 2:
+            fed_scalars.append((i, canon(strip(sy.operand(t["args"][1])))))
+        if c.endswith("Hasher::write") and len(t["args"]) == 2:
+            e = strip(sy.operand(t["args"][1]))
+            txt = canon(e)
+            if re.match(r"^\(?param:self\.\w+( as &\[u8\]\))?$", txt):
+                continue
+            m = re.match(r"^core::array::<impl core::ops::Index<I> for \[T; N\]>::index\(param:self\.\w+,core::ops::(?:Range::Range\{0,|RangeTo::RangeTo\{)\((param:self\.\w+) as usize\)\}\)$", txt)
+            if m and any(v == m.group(1) and (j < i or fh.dominates(j, i)) and fh.dominates(j, i) for j, v in fed_scalars):
+                continue
+            bad.append("write(%s): neither a whole field nor a prefix whose length field was fed before" % txt[:110])
+    ctx.ob(R, "%s Hash: the fed byte stream is self-delimiting (whole fields, or prefixes preceded by their length)" % tyname, not bad, "; ".join(bad)[:400] or "ok", fh.loc())
     # ---- cmp: positional agreement of the two tuples
     sy = Sym(fc)
     ok = False
